@@ -86,7 +86,7 @@ Theorem c18_reader_output_canonical : forall r s i,
 Proof. exact reader_output_canonical. Qed.
 Print Assumptions c18_reader_output_canonical.
 
-(* F28: an empty (or absent) description is replaced by the writer's default text *)
+(* F48: an empty (or absent) description is replaced by the writer's default text *)
 Theorem c18_empty_description_roundtrip_refuted :
   exists r suite i st, write_server r suite true i = Some st /\
     exists i', to_server_identity true r st = IOk i' /\ i' <> i /\ i_desc i = [] /\ i_desc i' = default_description.
